@@ -24,7 +24,11 @@ class InjectedMemory(MemoryError):
     pass
 
 
-FAULT_CLASSES = [InjectedFault, InjectedInterrupt, InjectedMemory, InjectedExit]
+class InjectedStop(StopIteration):
+    """the exception iteration protocols treat as "no more items": consumers such as dict.update(map(...)), zip, list(...) swallow it"""
+
+
+FAULT_CLASSES = [InjectedFault, InjectedInterrupt, InjectedMemory, InjectedExit, InjectedStop]
 
 
 _OPEN_LOG: list | None = None
